@@ -217,3 +217,144 @@ func fingerprint(x interface{}) string {
 	}
 	return fmt.Sprintf("%T|%v", x, x)
 }
+
+// ------------------------------------------------------------------ iterators
+
+// coin flips a seeded coin for "is an entry inserted during the walk visited?"
+// (Go leaves that open). Under the Canonical policy the answer is always no,
+// so reference renders are stable.
+//
+//go:norace
+func coin() bool {
+	if mapPolicy == Canonical {
+		return false
+	}
+	mapCalls++
+	return splitmix(mapSeed^(mapCalls*0xd1342543de82ef95))&1 == 1
+}
+
+// MapIt walks a map in the simulator-chosen order with Go's semantics for
+// mutation during the walk: deleted entries are not produced, updated values
+// are seen, and each entry inserted during the walk is produced or not as the
+// simulator decides.
+type MapIt[M ~map[K]V, K comparable, V any] struct {
+	m      M
+	queue  []Entry[M, K, V]
+	i      int
+	seen   map[K]struct{}
+	rescan int
+	k      K
+	v      V
+}
+
+// Iter replaces `range m` (see cmd/instrument, rule R3).
+func Iter[M ~map[K]V, K comparable, V any](m M) *MapIt[M, K, V] {
+	return &MapIt[M, K, V]{m: m, queue: Entries(m), i: -1}
+}
+
+func (it *MapIt[M, K, V]) Next() bool {
+	for {
+		it.i++
+		if it.i < len(it.queue) {
+			k, v, ok := it.queue[it.i].KV()
+			if !ok {
+				continue // deleted during the walk
+			}
+			it.k, it.v = k, v
+			return true
+		}
+		// snapshot exhausted: were entries inserted during the walk?
+		if len(it.m) == 0 || it.rescan > 8 {
+			return false
+		}
+		it.rescan++
+		if it.seen == nil {
+			it.seen = map[K]struct{}{}
+		}
+		for _, e := range it.queue {
+			it.seen[e.k] = struct{}{}
+		}
+		var fresh []Entry[M, K, V]
+		for _, e := range Entries(it.m) {
+			if _, ok := it.seen[e.k]; !ok {
+				it.seen[e.k] = struct{}{}
+				if coin() {
+					fresh = append(fresh, e)
+				}
+			}
+		}
+		if len(fresh) == 0 {
+			return false
+		}
+		it.queue, it.i = fresh, -1
+	}
+}
+
+func (it *MapIt[M, K, V]) KV() (K, V) { return it.k, it.v }
+
+// ReflectIt replaces *reflect.MapIter for code that walks with MapRange (R4).
+type ReflectIt struct {
+	m      reflect.Value
+	queue  []reflect.Value
+	i      int
+	seen   map[interface{}]struct{}
+	rescan int
+	k, v   reflect.Value
+}
+
+// MapRange replaces rv.MapRange().
+func MapRange(m reflect.Value) *ReflectIt {
+	return &ReflectIt{m: m, queue: OrderValues(m.MapKeys()), i: -1}
+}
+
+func (it *ReflectIt) Next() bool {
+	for {
+		it.i++
+		if it.i < len(it.queue) {
+			v := it.m.MapIndex(it.queue[it.i])
+			if !v.IsValid() {
+				continue
+			}
+			it.k, it.v = it.queue[it.i], v
+			return true
+		}
+		if it.m.Len() == 0 || it.rescan > 8 {
+			return false
+		}
+		it.rescan++
+		if it.seen == nil {
+			it.seen = map[interface{}]struct{}{}
+		}
+		hashable := func(k reflect.Value) (interface{}, bool) {
+			if !k.CanInterface() || !k.Type().Comparable() {
+				return nil, false
+			}
+			return k.Interface(), true
+		}
+		for _, k := range it.queue {
+			if h, ok := hashable(k); ok {
+				it.seen[h] = struct{}{}
+			}
+		}
+		var fresh []reflect.Value
+		for _, k := range OrderValues(it.m.MapKeys()) {
+			h, ok := hashable(k)
+			if !ok {
+				continue
+			}
+			if _, dup := it.seen[h]; !dup {
+				it.seen[h] = struct{}{}
+				if coin() {
+					fresh = append(fresh, k)
+				}
+			}
+		}
+		if len(fresh) == 0 {
+			return false
+		}
+		it.queue, it.i = fresh, -1
+	}
+}
+
+func (it *ReflectIt) Key() reflect.Value   { return it.k }
+func (it *ReflectIt) Value() reflect.Value { return it.v }
